@@ -99,6 +99,21 @@ Definition chk_moseq (c : moseq_case) : bool :=
                     let '(cmpl, t, it, vals, _) := cl in if cmpl then MoComplete t it vals else MoResult t it vals) calls in
   list_eqb (opt_eqb Bool.eqb) (snd (mo_run first_objective rf max_t (map md_of modes) b evs))
            (map (fun cl : bool * Z * Q * list Q * option bool => snd cl) calls).
+
+(* Tuner.best_config: (per-metric is_min, metric index, per trial (dict order of the tuning status) the result vectors
+   the tuner has seen, trial named by the real Tuner.best_config) *)
+Definition tbc_case := (list bool * nat * list (Z * list (list Q)) * Z)%type.
+Definition chk_tbc (c : tbc_case) : bool :=
+  let '(modes, i, table, impl) := c in
+  match tuner_best_config (MList (map md_of modes)) i table with
+  | Some (t, _) => Z.eqb t impl
+  | None => false
+  end.
+
+(* top_k_hyperparameter_configurations: (is_min, k, per configuration fidelities x seeds, indices returned) *)
+Definition topk_case := (bool * nat * list (Z * list (list Q)) * list Z)%type.
+Definition chk_topk (c : topk_case) : bool :=
+  let '(is_min, k, evs, impl) := c in zlist_eqb (tl_topk (md_of is_min) k evs) impl.
 """
 
 KINDS = ["hb_stopping", "hb_promotion", "hb_pasha", "hb_rush_stopping", "hb_rush_promotion",
@@ -1095,6 +1110,7 @@ def unit_cases3(ctx, replay):
                               tasks=[dict(n=rng.randint(2, 7), seeds=rng.randint(1, 3), fid=rng.randint(1, 4), seed=rng.randint(0, 10 ** 6))]))
     elif replay.get("kind") == "topk":
         cases = [replay]
+    topk_terms, topk_meta = [], []
     for c in cases:
         ev = tl_evaluations(c, 1.0, cs)["task0"]
         evn = tl_evaluations(c, -1.0, cs)["task0"]
@@ -1107,10 +1123,22 @@ def unit_cases3(ctx, replay):
         want = ev.hyperparameters.loc[order].to_dict("records")
         ctx.count(("topk", c), nontrivial=c["tasks"][0]["fid"] >= 2 and c["tasks"][0]["n"] >= 3)
         ctx.h("unit_kind", "top_k_hyperparameter_configurations")
+        hp_rows = ev.hyperparameters.to_dict("records")
+        idx = [hp_rows.index(h) for h in a] if all(h in hp_rows for h in a) else [-1]
+        raw = np.asarray(ev.objective_values("m"))  # (n, seeds, fidelities)
+        topk_terms.append("((%s, %s, %s, %s) : topk_case)" % (
+            blit(c["mode"] == "min"), natlit(c["k"]),
+            lst(["(%s, %s)" % (zlit(i), lst([lst([q(float(raw[i, sd, f])) for sd in range(raw.shape[1])]) for f in range(raw.shape[2])]))
+                 for i in range(raw.shape[0])]), lst([zlit(i) for i in idx])))
+        topk_meta.append(c)
         if a != b or a != want:
             ctx.violation("property", "top_k_hyperparameter_configurations(k=%d, mode=%s) = %r; on negated evaluations with the other "
                           "mode = %r; best-fidelity ranking = %r" % (c["k"], c["mode"], a, b, want), case=c,
                           signature=dict(function="top_k_hyperparameter_configurations", defect="mode_asymmetry"))
+    if topk_terms:
+        for i in ctx.coq_bad_cases("topk", IMPORTS, PRELUDE, "chk_topk", topk_terms, shard=150):
+            ctx.violation("correspondence", "model tl_topk differs from top_k_hyperparameter_configurations", case=topk_meta[i],
+                          failing_input=False, broken="correspondence chk_topk (model/ModeCores.v tl_topk)")
     # ---- real Tuner + MOASHA: Tuner.best_config ----
     cases = []
     if replay is None:
@@ -1125,6 +1153,7 @@ def unit_cases3(ctx, replay):
                               table_seed=rng.randint(0, 10 ** 9), n_workers=rng.randint(1, 3), max_results=rng.randint(10, 60)))
     elif replay.get("kind") == "tuner":
         cases = [replay]
+    tbc_terms, tbc_meta = [], []
     for c in cases:
         try:
             with U.watchdog(120):
@@ -1135,7 +1164,16 @@ def unit_cases3(ctx, replay):
             continue
         ctx.count(("tuner", c), nontrivial=len(set(m for m, f in zip(c["base_modes"], c["mask"]))) >= 1)
         ctx.h("unit_kind", "tuner_best_config")
-        for (q0, b0, ref0), (q1, b1, ref1) in zip(outs[0], outs[1]):
+        for out, table, is_min in outs:
+            for j in range(c["nmet"]):
+                impl = [b for (qq, b, _) in out if qq == j]
+                if impl:
+                    tbc_terms.append("((%s, %s, %s, %s) : tbc_case)" % (
+                        lst([blit(x) for x in is_min]), natlit(j),
+                        lst(["(%s, %s)" % (zlit(t), lst([lst([q(v) for v in row]) for row in rows])) for t, rows in table]),
+                        zlit(impl[0])))
+                    tbc_meta.append(c)
+        for (q0, b0, ref0), (q1, b1, ref1) in zip(outs[0][0], outs[1][0]):
             if b0 != b1 or b0 != ref0:
                 ctx.violation("property", "Tuner.best_config(metric=%r): trial %r with modes %r, trial %r in the mirrored experiment "
                               "(modes %r on the negated metrics %r); the best recorded value belongs to trial %r" % (
@@ -1143,6 +1181,14 @@ def unit_cases3(ctx, replay):
                                   [i for i, f in enumerate(c["mask"]) if f], ref0), case=c,
                               signature=dict(function="Tuner.best_config", defect="mode_asymmetry"))
                 break
+    _tbc_check(ctx, tbc_terms, tbc_meta)
+
+
+def _tbc_check(ctx, tbc_terms, tbc_meta):
+    if tbc_terms:
+        for i in ctx.coq_bad_cases("tbc", IMPORTS, PRELUDE, "chk_tbc", tbc_terms, shard=60):
+            ctx.violation("correspondence", "model tuner_best_config differs from Tuner.best_config", case=tbc_meta[i],
+                          failing_input=False, broken="correspondence chk_tbc (model/ModeCores.v tuner_best_config)")
 
 
 def run_tuner(c, variant):
@@ -1218,6 +1264,15 @@ def run_tuner(c, variant):
             def set_entrypoint(self, entry_point):
                 pass
 
+        from syne_tune.tuner_callback import TunerCallback
+        seen_rows = {}
+
+        class Seen(TunerCallback):
+            """what the tuner has processed, per trial in the order of first appearance"""
+
+            def on_trial_result(self, trial, status, result, decision):
+                seen_rows.setdefault(int(trial.trial_id), []).append([float(result["m%d" % j]) for j in range(c["nmet"])])
+
         sch = build_scheduler(spec, variant)
         n = c["max_results"]
         sink = io.StringIO()
@@ -1225,7 +1280,7 @@ def run_tuner(c, variant):
             tuner = Tuner(trial_backend=MemBackend(), scheduler=sch,
                           stop_criterion=lambda status: status.overall_metric_statistics.count >= n,
                           n_workers=c["n_workers"], sleep_time=0, print_update_interval=1e9, max_failures=1000,
-                          tuner_name="c15pair", suffix_tuner_name=False, save_tuner=False, callbacks=[])
+                          tuner_name="c15pair", suffix_tuner_name=False, save_tuner=False, callbacks=[Seen()])
             tuner.run()
             names = ["m%d" % i for i in range(c["nmet"])]
             modes = moasha_modes(c, variant)
@@ -1241,7 +1296,9 @@ def run_tuner(c, variant):
                     if i == 0 and query == 0:
                         pass
                     out.append((query, int(tuner.best_config(metric=query)[0]), None if ref is None else int(ref)))
-        return out
+            order = [int(t) for t in seen.keys()]
+            table = [(t, seen_rows.get(t, [])) for t in order]
+        return out, table, [m == "min" for m in (modes if not isinstance(modes, str) else [modes] * c["nmet"])]
     finally:
         shutil.rmtree(root, ignore_errors=True)
         if old is None:
